@@ -537,7 +537,12 @@ type op struct {
 func opSet(kvs ...kv) op {
 	return op{
 		label: "SetAttributes(" + kvList(kvs) + ")", kind: "SetAttributes",
-		real:  func(sp trace.Span, _ int) { sp.SetAttributes(realKVs(kvs)...) },
+		real: func(sp trace.Span, _ int) {
+			// the caller keeps using its slice: what the span holds must not follow
+			a := realKVs(kvs)
+			sp.SetAttributes(a...)
+			scribbleKVs(a)
+		},
 		model: func(m *model, _ int) { m.setAttrs(kvs) },
 	}
 }
@@ -546,13 +551,24 @@ func opEvent(name string, attrs ...kv) op {
 	return op{
 		label: fmt.Sprintf("AddEvent(%s; %s)", name, kvList(attrs)), kind: "AddEvent",
 		real: func(sp trace.Span, pos int) {
-			sp.AddEvent(name, trace.WithTimestamp(tsAt(int64(pos+1))), trace.WithAttributes(realKVs(attrs)...))
+			a := realKVs(attrs)
+			sp.AddEvent(name, trace.WithTimestamp(tsAt(int64(pos+1))), trace.WithAttributes(a...))
+			scribbleKVs(a)
 		},
 		model: func(m *model, pos int) { m.addEvent(mEvent{name: name, ts: int64(pos + 1), all: attrs}) },
 	}
 }
 
 var errBoom = errors.New("boom")
+
+// scribbleKVs overwrites the argument slice after the call returned (a caller re-using its buffer).
+// SetAttributes and AddEvent copy what they keep; link attributes are retained by reference in the
+// pinned tree (not stated either way), so links are left alone.
+func scribbleKVs(a []attribute.KeyValue) {
+	for i := range a {
+		a[i] = attribute.String("scribbled-by-caller", "x")
+	}
+}
 
 func opRecordError() op {
 	all := []kv{kS("exception.type", "?"), kS("exception.message", "boom")}
